@@ -395,6 +395,12 @@ class Report:
             if k["id"] not in seen:
                 seen.add(k["id"])
                 print(f"KNOWN-FINDING: property={self.pid} {k['id']}: {k['what']}")
+        # every listed finding of the property is reported, also when this run's cases did not reproduce it
+        # (the thorough tier, or another seed, does): it stays a known, unrepaired defect
+        for k in known_for(self.pid):
+            if k["id"] not in seen:
+                seen.add(k["id"])
+                print(f"KNOWN-FINDING: property={self.pid} {k['id']} (listed; not reproduced by this run's cases): {k['what']}")
         if not unknown:
             print(f"OK property={self.pid} tier={self.tier} obligations={n_ok}/{n_obl} evaluations={self.evaluations} distinct_nontrivial={len(self.distinct)} wall={ev['wall_s']}s")
             return 0
